@@ -112,13 +112,20 @@ def r1_r2_init(repo, rep):
   def full(n, e):
     return norm(labels_plain(rd.expand(n, e, depth=12, keep=(resp,), aliases=True)[0]))
   # canonical string IDs before the pivot
-  casts = [n for n in g.nodes if n.kind == 'stmt' and isinstance(n.ast, ast.Assign) and re.search(r"(\.geo|\['geo'\])$", norm(n.ast.targets[0]))
-           and re.search(r"astype\(('str'|str)\)", norm(n.ast.value))]
+  def _xt(n_, e_):
+    try:
+      return norm(rd.expand(n_, e_, depth=6, keep=(resp,), aliases=True)[0])
+    except Exception:
+      return norm(e_)
+  casts = [n for n in g.nodes if n.kind == 'stmt' and isinstance(n.ast, ast.Assign)
+           and (re.search(r"(\.geo|\['geo'\])$", norm(n.ast.targets[0])) or (isinstance(n.ast.targets[0], ast.Subscript) and re.search(r"\['geo'\]$", _xt(n, n.ast.targets[0].slice) and "['%s']" % _xt(n, n.ast.targets[0].slice).strip("'"))))
+           and (re.search(r"astype\(('str'|str)\)", norm(n.ast.value)) or re.search(r"astype\(('str'|str)\)", _xt(n, n.ast.value)))]
   pivots = [n for n in g.nodes if n.kind == 'stmt' and 'pivot_table(' in norm(n.ast) or (n.kind == 'stmt' and '.pivot(' in norm(n.ast))]
   if not pivots:
     rep.undecided('R1/ingestion-ids', 'geo IDs are cast to str before the pivot', 'the table is not built by pivot_table / pivot in the constructor: where the row labels come from is not followed', f.loc())
-  elif not casts and any(isinstance(c_, ast.Call) and isinstance(c_.func, ast.Attribute) and c_.func.attr in ('astype', 'map', 'apply') and re.search(r"\bstr\b", norm(c_))
-                         for c_ in ast.walk(f.module.tree)):
+  elif not casts and (any(isinstance(c_, ast.Call) and isinstance(c_.func, ast.Attribute) and c_.func.attr in ('astype', 'map', 'apply') and re.search(r"\bstr\b", norm(c_))
+                          for c_ in ast.walk(f.module.tree))
+                      or any(isinstance(c_, ast.Call) and isinstance(c_.func, ast.Attribute) and c_.func.attr in ('astype', 'map', 'apply') for c_ in ast.walk(f.node))):
     rep.undecided('R1/ingestion-ids', 'geo IDs are cast to str before the pivot', 'a conversion to str exists in the module, but not as an assignment to the geo column in the recognised form', f.loc())
   else:
     rep.check(bool(casts) and all(casts[0] in doms[p] for p in pivots), 'R1/ingestion-ids', 'geo IDs are cast to str before the pivot', f.qualname,
